@@ -58,6 +58,7 @@ Clauses(e) ==
       NoRestoreWhileDown    |-> e.ev = "Restore" => NoRestoreWhileDown(e.ok, P),
       GoodBackupRestoresGood |-> e.ev = "Restore" => GoodBackupRestoresGood(e.ok, P),
       BackupReflectsData    |-> e.ev = "Backup" => BackupReflectsData(P),
+      RefusedBackupKeepsCopy |-> e.ev = "Backup" => RefusedBackupKeepsCopy(e.ok, P),
       \* --- frame ---------------------------------------------------------------------------
       IdsKnown              |-> IdsKnown(P),
       ConnsOnlyByConnect    |-> ConnsOnlyByConnect(e.ev, P),
